@@ -119,11 +119,13 @@ func runDecodeCase(o *hx.Out, k int, r *prng.R, u *universe) {
 	var buf bytes.Buffer
 	t.encode(&buf, eo)
 	b := buf.Bytes()
+	wellFormed := !eo.badType && !eo.nonMinimal
 	switch r.Intn(6) {
 	case 0:
 		if len(b) > 0 {
 			b = b[:r.Intn(len(b))]
 			kind += "+truncated"
+			wellFormed = false
 		}
 	case 1:
 		b = append(b, byte(r.Intn(4)), 0x20)
@@ -164,9 +166,14 @@ func runDecodeCase(o *hx.Out, k int, r *prng.R, u *universe) {
 	if obs == "panic" {
 		o.Fail("cond-decoder-panic", k, "bytes=%x", b)
 	}
-	// a well-formed tree within the limits must be accepted
-	if kind == "random" && t.depth() <= transaction.MaxConditionNesting && obs == "err" && t.widthsOK() {
-		o.Fail("cond-decoder-rejects-valid", k, "tree=%s bytes=%x", t.tok(), b)
+	// a well-formed encoding of a tree within the limits must be accepted and give that tree back
+	if wellFormed && t.depth() <= transaction.MaxConditionNesting && t.widthsOK() {
+		o.Count("dec:valid-within-limits")
+		if obs == "err" {
+			o.Fail("cond-decoder-rejects-valid", k, "tree=%s bytes=%x", t.tok(), b)
+		} else if realTok(c) != realTok(t.real()) {
+			o.Fail("cond-decoder-wrong-tree", k, "tree=%s decoded=%s", realTok(t.real()), realTok(c))
+		}
 	}
 	o.Seen("dec/" + hx.Hex(b))
 }
